@@ -37,6 +37,8 @@ def _op(draw):
         op["seed"] = draw(st.integers(0, 1000))
     if k == "sgd":
         op["lr"] = draw(st.sampled_from([0.1, 0.5, 0.01]))
+    if k == "load":
+        op["via"] = draw(st.booleans())
     return op
 
 
@@ -63,6 +65,8 @@ def _phase(draw):
             op["seed"] = draw(st.integers(0, 1000))
         if ch == "sgd":
             op["lr"] = draw(st.sampled_from([0.1, 0.5]))
+        if ch == "load":
+            op["via"] = draw(st.booleans())
         ops.append(op)
         # switches may also come after the change
         if draw(st.booleans()):
@@ -167,10 +171,27 @@ def run_case(case):
                         continue
                     opt = torch.optim.SGD(subj.parameters(), lr=op["lr"])
                     x = _inputs(case, op["seed"], model["dtype"])
+                    # the same training step on a copy that has never seen a cache: whatever the cache did earlier in this history
+                    # (flags of parameters, graphs kept alive) must not change what an optimiser step does
+                    tws = twin_of()
+                    opt_t = torch.optim.SGD(tws.parameters(), lr=op["lr"])
+                    yt_, ldt_ = tws(x)
+                    (yt_.pow(2).mean() + 0.1 * ldt_.mean()).backward()
+                    opt_t.step()
+                    subj.zero_grad()            # (gradients left over from earlier backward ops of this history are not part of the step)
                     y, ld = subj(x)
                     (y.pow(2).mean() + 0.1 * ld.mean()).backward()
                     opt.step()
                     opt.zero_grad()
+                    ptol = 1e-9 if model["dtype"] == torch.float64 else 1e-4
+                    for (nm_, ps_), (_, pt_) in zip(subj.named_parameters(), tws.named_parameters()):
+                        if pt_.numel() > 0 and bool(torch.isfinite(pt_).all()) and bool(torch.isfinite(ps_).all()):
+                            dp_ = float((ps_.detach() - pt_.detach()).abs().max())
+                            if dp_ > ptol * (1 + float(pt_.detach().abs().max())):
+                                res.fail("training_step_differs", site, "step %d: after one SGD step parameter %s differs by %.3g from the same step on a "
+                                         "never-cached copy; history=%s" % (step, nm_, dp_, hist), measured=dp_, tol=ptol, param=nm_.split(".")[-1])
+                                res.nontrivial = True
+                                return res
                     with torch.no_grad():
                         w_ok = bool(torch.isfinite(subj.weight()).all()) and bool(torch.isfinite(subj.logabsdet()).all())
                     if not w_ok or not all(bool(torch.isfinite(p_).all()) for p_ in subj.parameters()):
@@ -181,7 +202,12 @@ def run_case(case):
                         stale_window = True
                 elif k == "load":
                     donor = _perturb(_build(case, False, seed_shift=op["seed"] + 7), op["seed"] + 3, 0.6).to(model["dtype"])
-                    subj.load_state_dict(donor.state_dict())
+                    if op.get("via"):
+                        # the usual way a checkpoint arrives: through the module that contains the transform
+                        from nflows import transforms as T_
+                        T_.CompositeTransform([subj]).load_state_dict({"_transforms.0." + k_: v_ for k_, v_ in donor.state_dict().items()})
+                    else:
+                        subj.load_state_dict(donor.state_dict())
                     if cached_call_since_change:
                         stale_window = True
                 elif k in ("double", "float"):
